@@ -504,7 +504,7 @@ def run_det_case(c, timeout_s=120.0):
         c.impl = "harness-error %r" % (e,)
 
 
-def run_impl(binpath, cases, timeout_s=5.0, nproc=None, env=None):
+def run_impl(binpath, cases, timeout_s=5.0, nproc=None, env=None, isolate=False):
     for i, c in enumerate(cases):
         c.id = i
     cli = [c for c in cases if c.op.startswith("cli")]
@@ -519,10 +519,16 @@ def run_impl(binpath, cases, timeout_s=5.0, nproc=None, env=None):
     cases = [c for c in cases if not c.op.startswith(("cli", "det"))]
     if not cases:
         return
-    nproc = nproc or min(NCPU, max(1, len(cases) // 50))
-    chunks = [[] for _ in range(nproc)]
-    for i, c in enumerate(cases):
-        chunks[i % nproc].append((c.id, c.line()))
+    if isolate:
+        # one harness process per case: what a case shows must not depend on what ran before it in the same process
+        # (package-level state in the code under test) — used while shrinking and when replaying
+        chunks = [[(c.id, c.line())] for c in cases]
+        nproc = min(NCPU, len(chunks))
+    else:
+        nproc = nproc or min(NCPU, max(1, len(cases) // 50))
+        chunks = [[] for _ in range(nproc)]
+        for i, c in enumerate(cases):
+            chunks[i % nproc].append((c.id, c.line()))
     byid = {c.id: c for c in cases}
     with ThreadPoolExecutor(nproc) as ex:
         for res in ex.map(lambda ch: _worker_run(binpath, ch, timeout_s, env), chunks):
@@ -557,8 +563,8 @@ def run_oracle(cases, nproc=None):
         list(ex.map(one, chunks))
 
 
-def evaluate(binpath, cases, timeout_s=5.0, env=None):
-    run_impl(binpath, cases, timeout_s, env=env)
+def evaluate(binpath, cases, timeout_s=5.0, env=None, isolate=False):
+    run_impl(binpath, cases, timeout_s, env=env, isolate=isolate)
     run_oracle(cases)
     return cases
 
@@ -649,7 +655,7 @@ def shrink_case(mod, binpath, case, still_bad, max_rounds=60, budget_s=45.0):
         # evaluate in small batches so that an early (aggressive) candidate is taken quickly
         for k in range(0, len(cands), 32):
             batch = cands[k:k + 32]
-            evaluate(binpath, batch, timeout_s=getattr(mod, "TIMEOUT", 5.0))
+            evaluate(binpath, batch, timeout_s=getattr(mod, "TIMEOUT", 5.0), isolate=True)
             for c in batch:
                 if still_bad(c):
                     nxt = c
